@@ -292,7 +292,9 @@ def skipLoop (s : State) : Nat → M (Bool × State)
     if !(← (g (cur.cat == 99 || cur.cat == 40 || cur.cat == 116) <||> cur.isUnaryOp)) then return (true, s)
     skipLoop s fuel
 
-def foldFuel (n : Nat) : Nat := 8 * n + 64
+/-- fuel of the main loop: above the proven termination measure (`Proofs/FoldRel`: unread input ×1015,
+window size ×145, token weights and distance < 145) -/
+def foldFuel (n : Nat) : Nat := 1015 * n + 1015
 
 def fold (s : State) : M (Nat × State) := do
   let s := { s with cur := 0 }
